@@ -84,6 +84,8 @@ def _cases(tier, seed):
         for rn, rc in ((False, False), (False, True), (True, True)):
             out.append({"k": "lead", "i0": i0, "i1": min(len(items), i0 + 12), "tier": tier, "retain": [rn, rc], "step": 3})
             out.append({"k": "misc", "i0": i0, "i1": min(len(items), i0 + 12), "tier": tier, "retain": [rn, rc], "step": 3})
+    out.append({"k": "lead", "reps": True})
+    out.append({"k": "misc", "reps": True})
     out.append({"k": "lead", "twins": True})
     out.append({"k": "lead", "magnitudes": True})
     out.append({"k": "lead", "wide": True})
@@ -195,6 +197,18 @@ def run_case(case, R):
         items = [(tuple(sp["n"]), tuple(sp["s"]), i, sp["d"], sp) for i, (_, sp) in enumerate(space.wide_specs() + space.wide_array_specs())]
     elif "dense" in case:
         items = [(tuple(sp["n"]), tuple(sp["s"]), lab_, sp["d"], sp) for lab_, sp in space.dense_specs()[case["dense"]:case["dense"] + 1]]
+    elif case.get("reps"):
+        # the same arrays, and constant ones, in every storage representation (terms stored unsorted, extra zero terms, unused names, views)
+        items = []
+        base = list(arrays("quick"))[::7]
+        consts = [(("q0", "q1"), (3,), "const", "i8", spec(("q0", "q1"), (3,), [((0, 0), [4, 5, 6])])),
+                  (("q0", "q1"), (), "const0", "f8", spec(("q0", "q1"), (), [((0, 0), 7.5)], "f8")),
+                  (("q1",), (2, 2), "const2", "i8", spec(("q1",), (2, 2), [((0,), [1, -2, 0, 3])]))]
+        for n_, s_, r_, k_, sp_ in base + consts:
+            for var in ("unsorted", "zeroterm+unsorted", "unusedname+unsorted", "zeroterm+unsorted+T", "zeroterm+view", "bigalloc+unsorted"):
+                if var.endswith("+T") and len(s_) < 2:
+                    continue
+                items.append((n_, s_, f"{r_}/{var}", k_, dict(sp_, v=var)))
     elif case.get("magnitudes"):
         items = [(tuple(sp["n"]), tuple(sp["s"]), i, sp["d"], sp) for i, sp in enumerate(space.magnitude_specs() + space.nonfinite_specs())]
     elif case.get("twins"):
